@@ -2,11 +2,13 @@
 
 Modules
 -------
-catalog     importable ``dsl.Schema`` tables + the plain-data ``TABLES`` description used by oracles
+catalog     importable ``dsl.Schema`` tables (A, B, C, D and the twin E) + re-export of the plain-data ``TABLES``
+catalog_data  the plain-data side alone (``TABLES``, ``DEFAULT_TABLES``, ``ATTRS``) - what oracles import
 ast         JSON AST documentation and pure helpers (walk/size/tables_of/kind_of/outputs_of/scope_of)
 build       JSON AST -> real forml DSL objects through the public API (fresh objects every call)
 wellformed  independent well-formedness oracle over the JSON AST (C07 rules) + expected output schema
-strategies  Hypothesis strategies: well-formed statements, single-rule mutants, single-leaf edits, shape classifier
+strategies  Hypothesis strategies: well-formed statements, single-rule mutants, single-leaf edits, shape classifier;
+            all driven by a byte-string ``Chooser`` (``gen_statement`` / ``gen_mutant`` / ``gen_edit`` are the pure functions)
 
-Only ``catalog`` and ``build`` import forml; ``ast``, ``wellformed`` and ``strategies`` are pure data code.
+Only ``catalog`` and ``build`` import forml; ``catalog_data``, ``ast``, ``wellformed`` and ``strategies`` are pure data code.
 """
